@@ -287,6 +287,22 @@ def r02k(prog: Program, chk: Check) -> None:
     nm = nmod.NarrowModel(prog)
     U, T = nmod.UNIVERSE, nmod.TYPES
     CLASSES = tuple(o for o in U if isinstance(o, type))
+
+    def predicate_flags(impl: str) -> dict:
+        """The constant keyword arguments with which `impl` builds its IsAssignablePredicate (read from the source)."""
+        fn = prog.func("implementation", impl)
+        calls = [c for c in walk_no_nested(fn) if isinstance(c, ast.Call) and last_attr(c.func) == "IsAssignablePredicate"]
+        if len(calls) != 1:
+            raise AnchorError(f"{impl}: expected one IsAssignablePredicate(...) call, found {len(calls)}")
+        flags = {"positive_only": False, "runtime_check": False}
+        for k in calls[0].keywords:
+            if k.arg in flags:
+                if not (isinstance(k.value, ast.Constant) and isinstance(k.value.value, bool)):
+                    raise AnchorError(f"{impl}: {k.arg}= is not a constant")
+                flags[k.arg] = k.value.value
+        return flags
+
+    isinstance_flags, issubclass_flags = predicate_flags("_isinstance_impl"), predicate_flags("_issubclass_impl")
     vals = [("AnyValue", None)] + [("KnownValue", o) for o in U] + [("TypedValue", t) for t in T] + [("SubclassValue", t) for t in CLASSES + (object,)]
     classes: Dict[str, List[dict]] = {}
     counts: Dict[str, int] = {}
@@ -324,7 +340,7 @@ def r02k(prog: Program, chk: Check) -> None:
     for r in (1, 2):
         for ts in itertools.combinations(T, r):
             pat = nm.unite([nm.value("TypedValue", t) for t in ts])
-            check("IsAssignablePredicate", dict(pattern_value=pat, positive_only=False, runtime_check=True), lambda o, ts=ts: isinstance(o, ts), nmod.members(pat), "isinstance(x, (" + ", ".join(t.__name__ for t in ts) + "))")
+            check("IsAssignablePredicate", dict(pattern_value=pat, **isinstance_flags), lambda o, ts=ts: isinstance(o, ts), nmod.members(pat), "isinstance(x, (" + ", ".join(t.__name__ for t in ts) + "))")
     # issubclass(x, C) / issubclass(x, (C, D)): the predicate _issubclass_impl builds
     for r in (1, 2):
         for ts in itertools.combinations(CLASSES + (object,), r):
@@ -333,7 +349,7 @@ def r02k(prog: Program, chk: Check) -> None:
             def cond_sub(o, ts=ts):
                 return issubclass(o, ts) if isinstance(o, type) else None  # issubclass() of a non-class raises
 
-            check("IsAssignablePredicate", dict(pattern_value=pat, positive_only=False, runtime_check=False), cond_sub, nmod.members(pat), "issubclass(x, (" + ", ".join(t.__name__ for t in ts) + "))")
+            check("IsAssignablePredicate", dict(pattern_value=pat, **issubclass_flags), cond_sub, nmod.members(pat), "issubclass(x, (" + ", ".join(t.__name__ for t in ts) + "))")
     for v in U:
         for use_is in (False, True):
             def cond(o, v=v, use_is=use_is):
